@@ -147,6 +147,7 @@ func c16(r *core.Run) {
 	}
 	refCountMultiplicity(r, "C16.A2")
 	refCountDisjoint(r, "C16.A3")
+	delFileOrder(r, "C16.O1")
 }
 
 // derivesViaCells: DerivesFrom, additionally following copies through local arrays/slices
@@ -466,4 +467,5 @@ func c17(r *core.Run) {
 			"deleting a file deletes its persisted records under prefix "+g.Name(), "nothing reachable from DelFile deletes store keys under "+g.Name()+": a persisted record of the deleted file survives")
 	}
 	refCountMultiplicity(r, "C17.A2")
+	delFileOrder(r, "C17.O1")
 }
